@@ -386,7 +386,21 @@ fn cmd_batch(args: &Args) {
                         eprintln!("RUN {i}");
                     }
                     let script = generate(&args.prop, args.seed, i).unwrap();
-                    let o = execute_mode(&script, args.mode, false);
+                    // a panic that escapes the executor is a harness error of this run, reported
+                    // with its own message (the panic hook is silent)
+                    let o = match std::panic::catch_unwind(std::panic::AssertUnwindSafe(|| execute_mode(&script, args.mode, false))) {
+                        Ok(o) => o,
+                        Err(_) => {
+                            // crate code (e.g. a Drop) that panicked outside a window is still a
+                            // violation of "panics only when documented"; anything else is ours
+                            let (c, m) = exec::classify_stray_panic(cls::PANIC_SPEC);
+                            let mut o = harness_fail(format!("run {i}: {m}"));
+                            if let Some(f) = &mut o.failure {
+                                f.classes = c;
+                            }
+                            o
+                        }
+                    };
                     wo.steps += o.stats.steps as u64;
                     add_stats(&mut wo.stats, &o.stats);
                     wo.stats.cells.extend_from_slice(&o.stats.cells);
